@@ -422,26 +422,24 @@ def setNth {α : Type} : List α → Nat → α → List α
   | x :: xs, n + 1, a => x :: setNth xs n a
 
 mutual
-/-- `Decoder.unmarshal(val, start)`: called with the tokens that follow the start tag; returns the
-    updated value and the tokens after the matching end tag -/
-def unmarshalElem (s : Schema) : Nat → LtType → V → List (String × List Char) → List XTok → Outcome (V × List XTok)
+/-- `Decoder.unmarshal(val, start)` on an element given as attributes and content -/
+def unmarshalNode (s : Schema) : Nat → LtType → V → List (String × List Char) → List Xml.Node → Outcome V
   | 0, _, _, _, _ => .unmodelled
-  | fuel + 1, ty, cur, attrs, toks =>
+  | fuel + 1, ty, cur, attrs, kids =>
     let k := kindOf s 8 ty
     match k with
     | .ptr t' =>
       let inner := match cur with | .ptr v => v | _ => zeroOf s 8 t'
-      (unmarshalElem s fuel t' inner attrs toks).map fun (v, r) => (V.ptr v, r)
+      (unmarshalNode s fuel t' inner attrs kids).map V.ptr
     | _ =>
       let custom := match headName ty with | some n => if s.unmarshalers.contains n then some n else none | none => none
       match custom with
-      | some n =>
-        (collectText 0 toks).bind fun (txt, rest) => (customParse s n cur txt).map fun v => (v, rest)
+      | some n => customParse s n cur (Xml.textOf kids)
       | none =>
         match k with
         | .slice t' =>
           let xs := match cur with | .list xs => xs | _ => []
-          (unmarshalElem s fuel t' (zeroOf s 8 t') attrs toks).map fun (v, r) => (V.list (xs ++ [v]), r)
+          (unmarshalNode s fuel t' (zeroOf s 8 t') attrs kids).map fun v => V.list (xs ++ [v])
         | .structT n =>
           match s.fieldsOf n, cur with
           | some fields, .struct fs0 =>
@@ -451,35 +449,26 @@ def unmarshalElem (s : Schema) : Nat → LtType → V → List (String × List C
               match (dfs.zipIdx).find? (fun (f, _) => f.attr && f.xmlName == a.1) with
               | some (f, i) => (copyValue (kindOf s 8 f.typ) a.2).map fun v => setNth fs i v
               | none => Outcome.ok fs) fs0
-            withAttrs.bind fun fs1 => structLoop s fuel dfs fs1 toks
+            withAttrs.bind fun fs1 => (structKids s fuel dfs fs1 kids).map V.struct
           | _, _ => .unmodelled
-        | .int | .float | .bool | .string =>
-          (collectText 0 toks).bind fun (txt, rest) => (copyValue k txt).map fun v => (v, rest)
+        | .int | .float | .bool | .string => copyValue k (Xml.textOf kids)
         | _ => .unmodelled
 
-/-- the token loop of a struct element; every round consumes fuel -/
-def structLoop (s : Schema) : Nat → List LtField → List V → List XTok → Outcome (V × List XTok)
-  | 0, _, _, _ => .unmodelled
-  | fuel + 1, dfs, fs, toks =>
-    match toks with
-    | [] => .err .eof
-    | .bad u :: _ => badOutcome u
-    | .text _ :: r => structLoop s fuel dfs fs r
-    | .stop _ :: r => .ok (.struct fs, r)
-    | .start name as :: r =>
-      match (dfs.zipIdx).find? (fun (f, _) => !f.attr && f.xmlName == name) with
-      | some (f, i) =>
-        match unmarshalElem s fuel f.typ (fs.getD i .nil) as r with
-        | .ok (v, r') => structLoop s fuel dfs (setNth fs i v) r'
-        | .err e => .err e
-        | .panic p => .panic p
-        | .unmodelled => .unmodelled
-      | none =>
-        match skipElem 0 r with
-        | .ok r' => structLoop s fuel dfs fs r'
-        | .err e => .err e
-        | .panic p => .panic p
-        | .unmodelled => .unmodelled
+/-- the children of a struct element, in document order: a child element whose name is a field's
+    goes into that field (starting from what the field already holds), anything else is skipped -/
+def structKids (s : Schema) : Nat → List LtField → List V → List Xml.Node → Outcome (List V)
+  | _, _, fs, [] => .ok fs
+  | 0, _, _, _ :: _ => .unmodelled
+  | fuel + 1, dfs, fs, .text _ :: r => structKids s fuel dfs fs r
+  | fuel + 1, dfs, fs, .elem name as kids :: r =>
+    match (dfs.zipIdx).find? (fun (f, _) => !f.attr && f.xmlName == name) with
+    | some (f, i) =>
+      match unmarshalNode s fuel f.typ (fs.getD i .nil) as kids with
+      | .ok v => structKids s fuel dfs (setNth fs i v) r
+      | .err e => .err e
+      | .panic p => .panic p
+      | .unmodelled => .unmodelled
+    | none => structKids s fuel dfs fs r
 end
 
 /-! ### Whole document -/
@@ -580,6 +569,10 @@ def decodeDoc (s : Schema) (cp1252 : List Nat) (bytes : List UInt8) : Outcome V 
         | none => .unmodelled
         | some want =>
           if name ≠ want then .err .format
-          else (unmarshalElem s (rest.length + 64) (.named "DB") (zeroOf s 8 (.named "DB")) attrs rest).map (·.1)
+          else
+            match Xml.parseNodes (rest.length + 2) rest with
+            | .bad u => badOutcome u
+            | .ok kids _ =>
+              unmarshalNode s (rest.length + 64) (.named "DB") (zeroOf s 8 (.named "DB")) attrs kids
 
 end TrackVerif.LT
